@@ -215,6 +215,15 @@ def run(tier, replay=None):
     shim_cases = [(t, bs, b"") for t, bs in cases]
     shim_obs = [None if o is None else ({"val": o[0]["val"], "ok": o[0]["ok"], "end": o[0]["end"], "reenc": o[0]["reenc"], "err": o[0]["err"]}, o[1]) for o in obs]
     c01.decide(report, "C02", shim_cases, shim_obs, bad, stats, proof, SPEC_CODES, c01.MODEL_CODES)
+    # "arbitrarily nested lists": <U1 7> inside 500 one-element lists is a valid E5 item of 1003 bytes
+    raw, res = common.nested_bytes(500), {"depth": 500, "bytes": 1003}
+    try:
+        var = valrig.build(("any",))
+        end = var.decode(raw)
+        res["decode"] = "ok" if end == len(raw) and var.encode() == raw else "wrong result"
+    except RecursionError:
+        res["decode"] = "RecursionError"
+    common.known_or_violation(report, "C02", "C02-deep-nesting", res["decode"] == "ok", res, "a valid E5 item (deeply nested lists) was not decoded", "deep")
     import hashlib
     distinct = set()
     kinds = {}
